@@ -807,6 +807,16 @@ func (se *SpecEnv) callSpec(c *ast.CallExpr) Value {
 		return av.Arr
 	case "at":
 		return F.Select(targ(0), targ(1))
+	case "zeroof":
+		// the zero value of the sort of the argument (the value a freshly made slice holds everywhere)
+		t := targ(0)
+		switch t.S {
+		case SInt:
+			return F.I64(0)
+		case SBool:
+			return F.False()
+		}
+		return F.Var("zero."+t.S.Name, t.S)
 	case "b2i":
 		return F.Ite(targ(0), F.I64(1), F.I64(0))
 	case "forall", "exists":
